@@ -34,10 +34,36 @@ type randCase struct {
 	Batch  int    `json:"batch"`  // maximal number of elements per Set call
 	Every  int    `json:"every"`  // c08: compare with a fresh index every so many operations
 	Legacy bool   `json:"legacy"` // c07: the remote is a legacy peer with a non-canonical index
+	RDf    int    `json:"rdf"`    // c07: divide factor of the remote index (0 = same as the requester's)
+	RTh    int    `json:"rth"`    // c07: threshold of the remote index (0 = same as the requester's)
+}
+
+// remoteTuning: the two sides of a diff are tuned independently
+func (c randCase) remoteTuning() (df, th int) {
+	df, th = c.Df, c.Th
+	if c.RDf > 0 {
+		df = c.RDf
+	}
+	if c.RTh > 0 {
+		th = c.RTh
+	}
+	return
+}
+
+func (c randCase) tuningClass() string {
+	df, th := c.remoteTuning()
+	switch {
+	case df == c.Df && th == c.Th:
+		return "same-tuning"
+	case df == c.Df:
+		return "mixed-th"
+	}
+	return "mixed-df"
 }
 
 func (c randCase) String() string {
-	return fmt.Sprintf("%s df=%d th=%d n=%d skew=%d ops=%d batch=%d legacy=%v seed=%d", c.Kind, c.Df, c.Th, c.N, c.Skew, c.Ops, c.Batch, c.Legacy, c.Seed)
+	rdf, rth := c.remoteTuning()
+	return fmt.Sprintf("%s df=%d th=%d remote(df=%d th=%d) n=%d skew=%d ops=%d batch=%d legacy=%v seed=%d", c.Kind, c.Df, c.Th, rdf, rth, c.N, c.Skew, c.Ops, c.Batch, c.Legacy, c.Seed)
 }
 
 // universe returns n distinct ids; with skew > 0 every second one has a hash whose leading skew bits
@@ -370,11 +396,12 @@ func runRandomC07(j *judge, c randCase) {
 	loc := newReal(c.Df, c.Th)
 	var rem index
 	remoteKind := "current"
+	rdf, rth := c.remoteTuning()
 	if c.Legacy {
-		rem = newLegacy(c.Df, c.Th)
+		rem = newLegacy(rdf, rth)
 		remoteKind = "legacy"
 	} else {
-		rem = newReal(c.Df, c.Th)
+		rem = newReal(rdf, rth)
 	}
 	replay := replayObj{Kind: "random", Random: &c}
 	func() {
@@ -413,7 +440,7 @@ func runRandomC07(j *judge, c randCase) {
 	for _, variant := range []string{"Diff", "CompareDiff"} {
 		for _, tr := range transports {
 			run := runDiff(loc, rem, variant, tr)
-			j.rep.Case(fmt.Sprintf("c07r/%s/%s/%s/df%d/th%d/%s/skew%d", variant, tr, remoteKind, c.Df, c.Th, sizeClass(c.N), c.Skew))
+			j.rep.Case(fmt.Sprintf("c07r/%s/%s/%s/df%d/th%d/%s/%s/skew%d", variant, tr, remoteKind, c.Df, c.Th, c.tuningClass(), sizeClass(c.N), c.Skew))
 			if cls := judgeDiff(run, want); cls != "" {
 				j.violate("C07", fmt.Sprintf("diff-inexact/%s/%s/%s/remote-%s", variant, tr, cls, remoteKind),
 					fmt.Sprintf("%v: %s over %s: local %d / remote %d elements, got new=%d changed=%d theirs=%d removed=%d in %d rounds (err=%q panic=%q), expected new=%d ours=%d theirs=%d removed=%d",
@@ -444,6 +471,16 @@ func randomCases(kind string, seed int64, thorough bool) []randCase {
 		n++
 		c.Kind = kind
 		c.Seed = seed*100000 + int64(n)
+		if kind == "c07" {
+			// the remote is tuned on its own: same as the requester, another threshold, or another pair altogether
+			switch rnd.Intn(4) {
+			case 1:
+				c.RTh = []int{1, 2, 3, 4, 8, 16, 64, 256}[rnd.Intn(8)]
+			case 2, 3:
+				p := paramPairs[rnd.Intn(len(paramPairs))]
+				c.RDf, c.RTh = p[0], p[1]
+			}
+		}
 		cs = append(cs, c)
 	}
 	reps := 1
